@@ -60,6 +60,10 @@ fn witness_u2() {
     let cond = Term { source_range: None, variant: If(Rc::new(t), Rc::new(a), Rc::new(b)) };
     assert(view(cond) == STerm::Node(Kind::If, s3(view(t), view(a), view(b))));
     let s = step(&cond);
+    proof {
+        broadcast use group_fv;
+        assert forall|x: nat| !#[trigger] s_has_fv(view(cond), 0, x) by {}
+    }
     let e = evaluate(&cond);
 }
 fn canary_is_value() {
@@ -84,6 +88,10 @@ fn canary_evaluate() {
     broadcast use group_ok;
     let t = Term { source_range: None, variant: True };
     assert(view(t) == STerm::Node(Kind::True, s0()));
+    proof {
+        broadcast use group_fv;
+        assert forall|x: nat| !#[trigger] s_has_fv(view(t), 0, x) by {}
+    }
     let e = evaluate(&t);
     assert(e is Err ==> false);
     assert(e is Ok ==> !s_value(view(e->Ok_0)));
